@@ -65,6 +65,19 @@ CLAIMED["C05"] = dict(
     note="Trusted: clang, AST export, sympy polynomial arithmetic; the exact solver's iteration is an uninterpreted mirror-equivariant "
          "function; DBL_MIN regularisers set to 0 in the flux identities.")
 
+CLAIMED["C09"] = dict(
+    level="other", design="3/C09",
+    technique="static analysis: serialization-grammar extraction of every restart writer and reader (ordered trees of primitives, "
+              "objects, loops, conditions tied to members) and item-by-item agreement; member-coverage and operation-tree rules",
+    text="Decides that the dump is complete and symmetric for every stop point at once: for every restartable class the writer grammar "
+         "equals the reader grammar (shape, primitive size/class, member identity and member type, loop bounds, conditions), the dump "
+         "site and the restart path of the task-based RHD driver exchange the same sequence with optional components guarded "
+         "consistently, every data member in the state closure of the dump is round-tripped, re-derived by the primary constructor's own "
+         "floating-point operation tree, or a listed transient, the restart factories know every dumpable class, the primitive codec is "
+         "symmetric, and no two stream reads are unsequenced. Bit-identity of the continued run itself is not decided.",
+    note="Trusted: clang, AST export, initialisation order as reported by clang; assumes no continuation-relevant state outside the dumped objects; "
+         "the transient table (cmiv/rules/c09.py) is confirmed by reading, one reason per member.")
+
 NOT_APPLICABLE = {
     "C13": "Equality with the RANLUX sequence, range [0,1) and byte-identical snapshots are facts about computed 48-bit arithmetic and library I/O; no sound static domain or on-disk reference to validate against. Its one structural clause (generator state fully dumped/restored) is decided under C09.",
     "C15": "Validity of a Voronoi tessellation and agreement of two constructions quantify over real generator sets; correctness rests on geometric predicates and flip sequences whose outcomes are runtime values; no clause has its truth in the shape of the code.",
